@@ -902,6 +902,12 @@ def search(ctx):
 
 def replay(obj):
     r = obj.get('replay', {})
+    if r.get('kind') == 'engine-rerun':
+        from harness import engine_rerun as _er      # with-items cases of the execution-tree rerun harness
+        return _er.replay(obj)
+    if r.get('kind') in ('engine-explore', 'engine-trace'):
+        from harness import engine_trace as _et
+        return _et.replay_case(obj)
     if 'events' not in r:
         print(json.dumps(obj, indent=1)[:3000])
         return 1
